@@ -18,6 +18,7 @@ package cli
 
 import (
 	"errors"
+	"unicode/utf8"
 
 	"github.com/cosmos/btcutil/base58"
 	"github.com/ethereum/go-ethereum/common"
@@ -26,6 +27,15 @@ import (
 // parseAddress parses an encoded address into a 32 length byte array.
 // Currently supported encodings: base58, hex.
 func parseAddress(address string) ([]byte, error) {
+	if len(address) < 2 || address[:2] != "0x" {
+		for i := 0; i < len(address); i++ {
+			if address[i] >= utf8.RuneSelf {
+				return nil, errors.New("address is not valid base58")
+			}
+		}
+		return leftPadBytes(base58.Decode(address))
+	}
+
 	if address[:2] == "0x" {
 		bz := common.FromHex(address)
 		return leftPadBytes(bz)
